@@ -181,4 +181,42 @@ def run(ctx):
             ctx.check(okc, 'R4', '%s: element strides / indices are converted to bytes with old_type->get_extent()' % cls, where(f, base[0].line),
                       '' if okc else 'the conversion uses size(): wrong as soon as the element type has holes or was resized', key='R4|%s|bytes per element' % cls)
     ctx.require(n4 >= 12, 'R4', 'only %d cursor updates / conversions found' % n4)
+    run_units(ctx, P, A)
     return EXPLANATION
+
+
+def run_units(ctx, P, A):
+    """R5: bytes and elements in the layout arithmetic of the constructors (P20)"""
+    from .. import dims
+    ctx.rule('R5', 'units of the layout arithmetic of Datatype::create_*: lb(), ub() and byte displacements / strides in [byte], size() and get_extent() in [byte/element], block '
+             'lengths and element displacements / strides in [element], counts are pure numbers; both sides of every sum, comparison and store agree. The upper bound of a block '
+             'is displacement + (block length - 1) x extent + ub: `block length x ub` is [element·byte] and is only equal to it for element types whose lb is 0', 45)
+    DT = D + '::'
+    Dm = dims.Dims(('byte', 'elem'), {})
+    u = Dm.unit
+    B, E, BPE, ONE = u(byte=1), u(elem=1), u(byte=1, elem=-1), Dm.one
+    Dm.getters = {DT + 'size': BPE, DT + 'get_extent': BPE, DT + 'lb': B, DT + 'ub': B}
+    pu = {}
+    for fn, params in {'create_contiguous': {'count': E, 'lb': B}, 'create_vector': {'count': ONE, 'block_length': E, 'stride': E}, 'create_hvector': {'count': ONE, 'block_length': E, 'stride': B},
+                       'create_indexed': {'count': ONE, 'block_lengths': E, 'indices': E}, 'create_hindexed': {'count': ONE, 'block_lengths': E, 'indices': B},
+                       'create_struct': {'count': ONE, 'block_lengths': E, 'indices': B}, 'create_resized': {'lb': B, 'extent': B}}.items():
+        for n_, un in params.items():
+            pu[(DT + fn, n_)] = un
+    Dm.param_units = pu
+    # create_contiguous is also used as "count bytes of MPI_CHAR" by create_struct and with an element count by the others: its own parameters are given above and the
+    # call sites are not unified with them
+    fns = sorted([f for f in P.fns.values() if f['q'].startswith(DT + 'create_') and f.get('blocks') and 'subarray' not in f['q']], key=lambda f: f['key'])
+    ctx.require(len(fns) >= 7, 'R5', 'only %d create_* constructors found' % len(fns))
+    Dm.run(A, fns)
+    calls = lambda r: r['what'].startswith('argument ')       # noqa: E731
+    for r in Dm.decided:
+        if not calls(r):
+            ctx.holds('R5', '%s: %s %s %s' % (r['fn'].replace(DT, ''), r['a'][:70], r['what'], r['b'][:70]), '', '[%s]' % Dm.show(r['da']))
+    for r in Dm.conflicts:
+        if calls(r):
+            continue
+        f = [x for x in fns if x['q'] == r['fn']][0]
+        ctx.violation('R5', '%s: %s %s %s' % (r['fn'].replace(DT, ''), r['a'][:70], r['what'], r['b'][:70]), where(f, r['line']), 'left side in [%s], right side in [%s]' % (Dm.show(r['da']), Dm.show(r['db'])),
+                      key='R5|%s|%s %s %s' % (r['fn'].replace(DT, ''), r['a'][:50], r['what'], r['b'][:50]))
+    for fq in ('create_vector', 'create_hvector', 'create_indexed', 'create_hindexed', 'create_struct'):
+        ctx.require(any(r['fn'] == DT + fq and 'ub' in r['a'] + r['b'] for r in Dm.decided + Dm.conflicts), 'R5', 'no decided site mentions ub in %s' % fq)
